@@ -48,6 +48,11 @@ CLAIMED = {
    text="Lean theorems about the query functions of the model (pure functions of the recorded rounds): index normalisation (exactly [-len, len) accepted, negative indices address the same rounds, otherwise IndexError) for all getters, cumulative elected/eliminated as concatenations of the per-round records (hence monotone growth), ranking = elected ++ remaining ++ eliminated. Correspondence: random query histories (6-30 calls, repetition, negative and out-of-range indices) on finished elections of every rule, each answer compared with the model; monitors: recorded rounds unchanged after every call (snapshot), repeated calls repeat, profile candidates = remaining, re-scoring reproduces recorded tallies.",
    note="Trusted: Lean kernel + standard axioms; Python aliasing/purity is observed, not proved; get_profile is modelled by direct construction, the implementation's replay is compared with it. Repaired defect F-C09-a (fix: commit e2abdfa); open finding F-C09-b (PluralityVeto.get_profile).",
    ref="DESIGN.md §4 C09"),
+
+ "C10": dict(
+   text="Lean theorems (oracle = the model's random argument): every tiebreak resolution is a strict order of exactly the tied set; without a recorded tiebreak the result is the same for every oracle value; a recorded tiebreak concerns one equal-score group with >= 2 members straddling the last seat, and elected/remaining obey it; 'borda'/'first_place' resolutions are sorted by that score, the oracle deciding only among candidates still tied. Correspondence: the model consumes the recorded tiebreaks as its oracle, so an unrecorded random influence or a spurious record is a disagreement. Monitors: three seeds give identical outcomes unless a tiebreak is recorded; no random primitive is called when none is recorded; recorded sets are tied on the previous tally and obeyed.",
+   note="Trusted: Lean kernel + standard axioms; only whether/on which set random.sample is called is checked here (uniformity is C17). Intentionally random rules are out of scope.",
+   ref="DESIGN.md §4 C10"),
 }
 TECH = "Lean 4 kernel-checked theorems over a hand-written executable model + differential correspondence check of the model against /repo/src + independent Python monitors"
 
